@@ -87,6 +87,9 @@ fn trace_hash(prop: &str, seed: u64, runs: u64, tier: Tier) -> i32 {
         for (k, v) in &b.stats.worst {
             items.push(format!("{}={:016x}", k, v.to_bits()));
         }
+        for (k, v) in &b.stats.sets {
+            items.push(format!("{}#{}", k, v.len()));
+        }
         items.push(format!("ev={} or={}", b.stats.sim_events, b.stats.oracle_evals));
         for (i, f) in &b.failures {
             items.push(format!("{}:{}", i, f.viol.class));
